@@ -18,6 +18,7 @@ func runSteps(cfg Config, steps []Step, driver, scratch string, res *lib.Result,
 		return []Failure{{Sig: "engine", What: err.Error()}}, false
 	}
 	defer e.Close()
+	e.full = true
 	for i, s := range steps {
 		if s.Op == "revert" && e.Height() == 0 {
 			return nil, false
